@@ -143,6 +143,11 @@ def run_weak(chk, spec):
 		"huge-int-in-complex": lambda: Vector([10 ** 400, 1j]),
 		"peek-non-string-names": lambda: Table([Vector([1, 2], name=2023), Vector([3, 4], name=(1, 2)), Vector(["a", "b"], name=None), Vector([5, 6], name=2.5)]).peek(),
 		"peek-args": lambda: Table([Vector(list(vals) or [1], name=7), Vector(list(vals) or [1], name="s")]).peek(2),
+		"bit-lshift-scalar": lambda: Vector([1, 2, None, 3][:max(1, min(n, 4))]).bit_lshift(2),
+		"bit-rshift-vector": lambda: Vector([8, 16, 1024]).bit_rshift(Vector([1, 2, 3])),
+		"bit-lshift-bool": lambda: Vector([True, False]).bit_lshift(1),
+		"list-matmul-table": lambda: Vector([[1, 2] @ Vector([3, 4.5])]),
+		"renamed-deprecated": lambda: _renamed(Vector(list(vals) or [1], name="a")),
 		"zero-plus-bool": lambda: 0 + Vector([True, False][:max(1, min(n, 2))]),
 		"false-plus-bool": lambda: False + Vector([True, False][:max(1, min(n, 2))]),
 		"sum-of-bool-vectors": lambda: sum([Vector([True, False]), Vector([True, True])]),
@@ -330,11 +335,19 @@ def run_history(chk, spec):
 	m.run()
 
 
+def _renamed(v):
+	import warnings
+	with warnings.catch_warnings():
+		warnings.simplefilter("ignore")
+		r = v.rename("b")
+	return v if r is None else r
+
+
 RUNNERS = {"rows": run_rows, "unusual": run_unusual, "weak": run_weak, "assign": run_assign, "history": run_history, "recompute": recompute.runner("C03")}
 
 WEAK_OPS = ["radd-scalar", "radd-list", "rsub-scalar", "rmul-scalar", "rtruediv", "rpow", "add-wider-scalar", "add-wider-vector", "neg", "pos", "abs", "invert",
 	"lshift-wider", "lshift-none", "lshift-str", "lshift-list-mixed", "lshift-vector", "rlshift", "cast-str", "cast-float", "cast-int", "cast-bool", "cast-callable", "cast-date-from-iso", "cast-datetime-from-iso", "cast-date-of-dates", "cast-date-of-datetimes", "cast-datetime-of-dates", "promoted-date-plus-int", "promoted-date-plus-intvec", "promoted-date-minus-timedelta", "promoted-int-abs", "promoted-int-neg",
-	"promoted-int-invert-free", "lshift-operand-widened-by-inference", "lshift-operand-bool-then-int", "lshift-operand-date-then-datetime", "lshift-nullable-operand", "table-lshift-table-widened", "huge-int-in-float", "huge-int-into-float", "huge-int-in-complex", "peek-non-string-names", "peek-args", "zero-plus-bool", "false-plus-bool", "sum-of-bool-vectors", "zero-plus-numeric-holding-bool", "new-empty", "new-empty-typesafe",
+	"promoted-int-invert-free", "lshift-operand-widened-by-inference", "lshift-operand-bool-then-int", "lshift-operand-date-then-datetime", "lshift-nullable-operand", "table-lshift-table-widened", "huge-int-in-float", "huge-int-into-float", "huge-int-in-complex", "peek-non-string-names", "peek-args", "zero-plus-bool", "bit-lshift-scalar", "bit-rshift-vector", "bit-lshift-bool", "list-matmul-table", "renamed-deprecated", "false-plus-bool", "sum-of-bool-vectors", "zero-plus-numeric-holding-bool", "new-empty", "new-empty-typesafe",
 	"fillna-same", "fillna-wider", "fillna-none", "fillna-integral-wider", "lshift-vector-none", "lshift-vector-same", "and-int", "or-vector", "xor-list",
 	"new-equal-narrower-first", "agg-stdev", "win-stdev", "dropna", "isna", "unique", "sort", "to_object", "T", "slice", "mask", "pluck", "new", "new-typesafe", "new-none-typesafe", "new-none", "isinstance",
 	"compare", "matmul-table", "table-sum", "table-max", "table-mean"]
